@@ -204,3 +204,21 @@ Definition handle_event_frame_wf (f : fn_def) : bool :=
 
 Lemma handle_event_frame : handle_event_frame_wf handle_event = true.
 Proof. vm_compute. reflexivity. Qed.
+
+(* FsWatcherBuilder: the root it remembers is the path it handed to notify, as given (notify reports
+   paths under the spelling it was given), and build hands the roots on unchanged *)
+Definition watch_wf (f : fn_def) : bool :=
+  match fn_body f with
+  | [ESemi (ETry (ECall (EPath ["notify"; "Watcher"; "watch"]) [ERef (EField (EPath ["self"]) "watcher"); ERef (EPath ["path"]); _]));
+     ESemi (EMethod (EField (EPath ["self"]) "roots") "push" [EPath ["path"]]);
+     ECall (EPath ["Ok"]) [ETuple []]] => true
+  | _ => false
+  end.
+Definition build_wf (f : fn_def) : bool :=
+  match fn_body f with
+  | [ELetS (PIdent h None) (Some (EStruct ["NotifyEventHandler"] (("roots", EField (EPath ["self"]) "roots") :: ("events", EPath ["events"]) :: _))) None;
+     ELetS PWild (Some (EMethod (EField (EPath ["self"]) "payload_sender") "send" [EPath [h']])) None] => String.eqb h h'
+  | _ => false
+  end.
+Lemma watcher_keeps_the_roots_as_given : watch_wf FsWatcherBuilder_watch = true /\ build_wf FsWatcherBuilder_build = true.
+Proof. vm_compute. split; reflexivity. Qed.
